@@ -10,6 +10,7 @@ sys.path.insert(0, os.path.dirname(os.path.abspath(__file__)))
 sys.path.insert(0, os.environ.get('VERIF_REPO', '/repo'))
 
 import corpus  # noqa: E402
+import rec_ctx  # noqa: E402
 import textreaders as TR  # noqa: E402
 
 # label alphabets; every label is non-empty, without leading/trailing whitespace or line breaks (table / cxt domain)
@@ -301,7 +302,8 @@ def main():
                 continue
             rng = random.Random(f'{a.seed}:text:{b}')
             try:
-                behaviour(rec, b, t, rng, a.tier)
+                with rec_ctx.watchdog(3 * rec_ctx.CALL_TIMEOUT):
+                    behaviour(rec, b, t, rng, a.tier)
             except Exception as exc:
                 rec.b = b
                 rec.ev('crash', prop='C12', call='behaviour', exc=type(exc).__name__, msg=str(exc)[:300])
